@@ -207,7 +207,8 @@ func c02Schema() dyn.Schema {
 			{Name: "name", K: 'a', KT: 's'}, {Name: "n", K: 'a', KT: 'i'}, {Name: "im", K: 'a', KT: 's', Immutable: true},
 			{Name: "kids", K: 's', KT: 'u', Max: -1, RefTable: "C", RefType: "strong"},
 			{Name: "w1", K: 's', KT: 'u', Min: 1, Max: -1, RefTable: "Q", RefType: "weak"},
-			{Name: "ss", K: 's', KT: 's', Max: -1}, {Name: "m", K: 'm', KT: 's', VT: 's', Max: -1}}},
+			{Name: "ss", K: 's', KT: 's', Max: -1}, {Name: "m", K: 'm', KT: 's', VT: 's', Max: -1},
+			{Name: "bs", K: 's', KT: 's', Max: 3}, {Name: "bi", K: 's', KT: 'i', Min: 0, Max: 2}}},
 		{Name: "C", Indexes: [][]string{{"k"}}, Cols: []val.Col{
 			{Name: "k", K: 'a', KT: 's'}, {Name: "v", K: 'a', KT: 'i'},
 			{Name: "friend", K: 'o', KT: 'u', RefTable: "Q", RefType: "weak"}}},
